@@ -232,12 +232,9 @@ def run(ctx):
         ret = strip_refs(lookups[0][2])
         user_branch = ret.a[1][0] if ret.k == "call" and ret.a[0].endswith("::or_else") else ret
         filt = None
-        for x in user_branch.walk():
-            if x.k == "call" and x.a[0].endswith("::filter") and strip_refs(x.a[1][1]).k == "agg":
-                ck = strip_refs(x.a[1][1]).a[0][8:]
-                cret = strip_refs(prog.body(ck).expr_local(0))
-                if cret.k == "call" and cret.a[0].endswith("is_ascii"):
-                    filt = ck
+        fck, ftt = phonetic.autocorrect_filter(prog)
+        if ftt is not None and all((not kept) or asc for (asc, nul), kept in ftt.items()) and any(kept for kept in ftt.values()):
+            filt = fck          # whatever else it tests, a kept value is ASCII
         # also accept validation at load time *and* at reload time (every assignment of the map filtered) — not the case today
         if filt:
             r2.ok("ascii-filter", "user auto-correct value passes `.filter(is_ascii)` before the phonetic parser (which slices by byte)")
